@@ -62,12 +62,15 @@ func newEntryState() *State {
 // heapWFAxiom: every slice stored in a heap of slices is well formed (a Go
 // invariant; needed when specs read lengths of nested slices).
 func (c *Ctx) heapWFAxiom(key, name string) string {
-	if key != "Slice" {
-		return ""
-	}
 	bound := c.heapBound[name]
 	if bound == "" {
 		bound = "alloc0"
+	}
+	if key == "Ptr" {
+		return fmt.Sprintf("(forall ((o Int) (i Int)) (! (and (>= (pobj (select (select %s o) i)) 0) (< (pobj (select (select %s o) i)) %s)) :pattern ((select (select %s o) i))))", name, name, bound, name)
+	}
+	if key != "Slice" {
+		return ""
 	}
 	return fmt.Sprintf("(forall ((o Int) (i Int)) (! (and (wfslice (select (select %s o) i)) (< (sobj (select (select %s o) i)) %s)) :pattern ((select (select %s o) i))))", name, name, bound, name)
 }
@@ -75,7 +78,7 @@ func (c *Ctx) heapWFAxiom(key, name string) string {
 // wantSliceWF adds (once) the well-formedness axiom for a heap of slices
 // that a spec expression reads.
 func (c *Ctx) wantSliceWF(key, name string) {
-	if key != "Slice" || c.declared["slicewf:"+name] {
+	if (key != "Slice" && key != "Ptr") || c.declared["slicewf:"+name] {
 		return
 	}
 	if _, isDef := c.defs[name]; isDef {
@@ -427,6 +430,23 @@ func (fr *frame) load(st *State, p Val, pos token.Pos) Val {
 	}
 	t := fr.readPath(rt, root, p.Path)
 	v := Val{T: c.define("ld", c.sortOf(resTy), t), Ty: resTy}
+	if p.Local == nil {
+		es := c.sortOf(rt)
+		h := c.heap(st, es)
+		if _, derived := c.heapDefs[h]; !derived {
+			if _, isDef := c.defs[h]; !isDef {
+				// read from a declared (entry or havocked) heap: its contents are older than its bound
+				b := c.heapBound[h]
+				if b == "" {
+					b = "alloc0"
+				}
+				if w := c.wfTerm(v.T, v.Ty, b, 0); w != "true" && v.Path == nil && v.Local == nil {
+					fr.assumeR(w)
+				}
+				return v
+			}
+		}
+	}
 	fr.assumeWF(v, st)
 	return v
 }
@@ -1041,7 +1061,11 @@ func (fr *frame) backEdge(b *ssa.BasicBlock, li *loopInfo, st *State, cond strin
 			conj = append(conj, fmt.Sprintf("(< %s %s)", cur[i], li.decPrev[i]), fmt.Sprintf("(>= %s 0)", li.decPrev[i]))
 			alts = append(alts, and(conj...))
 		}
-		fr.oblige("decreases", fmt.Sprintf("loop%d", li.ord), nil, or(alts...), "loop measure decreases: "+li.spec.DecText, h.Instrs[0].Pos())
+		claim := or(alts...)
+		if li.spec.DecWhen != nil {
+			claim = implies(env.sub(fr.entry).trBool(li.spec.DecWhen), claim)
+		}
+		fr.oblige("decreases", fmt.Sprintf("loop%d", li.ord), nil, claim, "loop measure decreases: "+li.spec.DecText, h.Instrs[0].Pos())
 	} else if li.spec == nil || len(li.spec.Decreases) == 0 {
 		// termination not claimed for this loop
 	}
@@ -1562,6 +1586,8 @@ func (fr *frame) execConvert(x *ssa.Convert) {
 			fr.vals[x] = Val{T: "((_ to_fp 11 53) RNE (to_real " + v.T + "))", Ty: to}
 		case ModeReal:
 			fr.vals[x] = Val{T: "(to_real " + v.T + ")", Ty: to}
+		case ModeXReal:
+			fr.vals[x] = Val{T: "(xfin (to_real " + v.T + "))", Ty: to}
 		default:
 			fr.vals[x] = Val{T: "(flit " + v.T + ")", Ty: to}
 		}
@@ -1569,6 +1595,8 @@ func (fr *frame) execConvert(x *ssa.Convert) {
 		fr.vals[x] = Val{T: v.T, Ty: to}
 	case isFloat(from) && isInteger(to):
 		switch c.mode {
+		case ModeXReal:
+			fr.vals[x] = Val{T: fmt.Sprintf("(ite (>= (xval %s) 0.0) (to_int (xval %s)) (- (to_int (- (xval %s)))))", v.T, v.T, v.T), Ty: to}
 		case ModeReal:
 			// truncation toward zero
 			fr.vals[x] = Val{T: fmt.Sprintf("(ite (>= %s 0.0) (to_int %s) (- (to_int (- %s))))", v.T, v.T, v.T), Ty: to}
